@@ -6,6 +6,8 @@ from ..core.program import fmt_term, fmt_atom
 from . import c08, c09, c12, c16, c14
 
 META = {
+    "technique": "static analysis: repository-specific dataflow / guard-dominance / affine path rules over LLVM IR (CFG, SSA, resolved "
+                 "call graph), plus one syntax-tree lint (clang-query over the compilation database) for signed shifts",
     "explanation": (
         "General memory safety of ~10k lines of pointer C is NOT decided. Decided are repository-specific rules for the crash "
         "mechanisms reachable from network input: (1) R-BOUND: the result of snprintf/vsnprintf is used as an index, pointer "
